@@ -2,6 +2,7 @@
 import json
 import os
 import subprocess
+import collections
 import time
 
 from . import extract
@@ -48,13 +49,18 @@ def c08(pid, tier, seed):
     from . import frames
     t0 = time.time()
     sums, msums, funcs, methods = fc.summarize_all(fold_in_place=True)
-    pub = fc.public_names()
+    pubf = fc.public_functions()
+    bare = collections.Counter(q.rsplit("::", 1)[-1] for q in pubf)
     obs = []
-    # (a) public functions
-    for name in sorted(pub):
-        if name not in sums or name in C08_IN_PLACE_FUNCS:
+    # (a) public functions: every module-level function exported by its module's __all__ (same-named functions of
+    # different modules each get their own obligation)
+    for q in pubf:
+        name = q.rsplit("::", 1)[-1]
+        if q not in sums or name in C08_IN_PLACE_FUNCS:
             continue
-        s = sums[name]
+        s = sums[q]
+        if bare[name] > 1:
+            name = "%s.%s" % (os.path.basename(q.split("::")[0])[:-3], name)
         idxs = [i for i, p in enumerate(s.params) if p in NET_PARAM_NAMES]
         if not idxs:
             continue
@@ -594,3 +600,48 @@ def c11_glue(pid, tier, seed):
 
 
 EXTRA["C11"] = with_oracle("C11", c11_glue)
+
+
+def c18_cover(pid, tier, seed):
+    """Coverage obligations: every *indirect* structural mutator of each class (recomputed from the
+    ASTs) has a contract carrying a C18 clause; only freeze()/__init__/__setstate__ store instance
+    attributes (so `shadowed iff frozen and listed by freeze()` is the whole truth)."""
+    import ast
+    import contracts  # noqa
+    from . import frames
+    from .spec import REGISTRY
+    obs = []
+    for kind, cls in (("H", "Hypergraph"), ("DH", "DiHypergraph"), ("SC", "SimplicialComplex")):
+        d, ind = frames.struct_mutators(kind)
+        names = extract.freeze_names(kind)
+        missing = [m for m in d if m not in names]
+        o = obligation("C18/freeze-lists-direct-mutators:%s" % cls, not missing, reason=("not shadowed by freeze(): %s" % missing) if missing else None,
+                       props=("C18",), clause="coverage", where=extract.resolve_method(kind, "freeze"))
+        obs.append(o)
+        for m in ind:
+            q = extract.resolve_method(kind, m)
+            sp = REGISTRY.get(q)
+            ok = sp is not None and "C18" in sp.props
+            o = obligation("C18/indirect-mutator-has-contract:%s.%s" % (cls, m), ok, props=("C18",), clause="coverage", where=q,
+                           reason=None if ok else "indirect structural mutator without a C18 contract (raises XGIError or leaves the tables unchanged when frozen)")
+            if not ok:
+                o["status"] = "unknown"  # not a violation: the machinery does not cover this method yet
+            obs.append(o)
+        bad = []
+        for name, q in extract.public_methods(kind).items():
+            if name in ("freeze", "__init__", "__setstate__"):
+                continue
+            for n in ast.walk(extract.function(q)):
+                if isinstance(n, ast.Assign):
+                    for t in n.targets:
+                        if isinstance(t, ast.Attribute) and isinstance(t.value, ast.Name) and t.value.id == "self" and t.attr not in frames.TABLES and t.attr not in ("_nodeview", "_edgeview"):
+                            bad.append("%s stores self.%s" % (q.split("::")[1], t.attr))
+        obs.append(obligation("C18/only-freeze-installs-attributes:%s" % cls, not bad, reason="; ".join(bad[:4]) or None, props=("C18",), clause="coverage"))
+    violations = []
+    for i, o in enumerate([o for o in obs if o["status"] == "refuted"]):
+        path = write_text_replay(pid, 50 + i, "C18 obligation refuted: %s\n%s" % (o["name"], o["reason"]), dict(property=pid, obligation=o["name"], reason=o["reason"]))
+        violations.append(dict(obligation=o, path=path, reproduced=False, case=None))
+    return dict(obligations=obs, violations=violations, bounded=[], trusted=["Python attribute lookup: an instance attribute shadows the class's method of the same name"], assumptions=[])
+
+
+EXTRA["C18"] = c18_cover
